@@ -17,11 +17,13 @@ def check(run):
     run.functions += ['traverse::walk_types_mut (%s)' % src_line('src/traverse.rs', 'fn walk_types_mut'), 'validation::resolve_type (%s)' % src_line('src/validation.rs', 'fn resolve_type('),
                       'ast::AndroidTypeKind::{from_name, from_qualified_name, get_name, get_qualified_name, can_be_qualified}']
     run.bounds += ['type walker: any depth by induction (engine T) and depth 2 unsummarised; 12-name pool; empty import and forward-declaration sets; unwind 4 / 34 (string compares)']
-    run.outside += ['matching against a NON-EMPTY import / forward-declaration set (HashSet<String> iteration + format!): not encodable under CBMC (one insert: > 14 min); covered only by the native sweep',
-                    'the key -> kind map over all parsed files']
+    run.outside += ['more than 2 (quick) / 3 (thorough) imports, 1 forward declaration, 1-2 registered keys per resolution', 'how validate builds the import / declaration sets and the key map (HashMap collect)',
+                    'std HashSet / HashMap themselves: contains / get / iter().find are modelled (find may return ANY matching element: hash order is quantified away)']
     run.assumptions += ['stub: std::hash::RandomState::new -> fixed keys (empty containers only)', 'stub: alloc::fmt::format -> String::new()']
-    run.extra['explanation'] = 'Kani/CBMC: every type node reaches the resolver exactly once; built-in tables; resolver on import-free files; native sweep (67 references incl. imports, near-misses, imported built-ins) for the rest.'
+    run.extra['explanation'] = ('Engine T + z3 strings: resolve_type on symbolic names, import sets, forward declarations and key map against the scoping rules of the statement; every type node reaches the '
+                                'resolver exactly once (induction); Kani: built-in tables and the import-free resolver; native sweep of 67 references confirms counterexamples.')
     ksupport.decide(run, 'C05', SPECS, {'c05': native.sweep_c05})
+    resolver_obligations(run)
     # every type node, at any depth, reaches the resolver exactly once: engine T on walk_types_mut + the closure resolve_types hands to it
     import c15
     c15.check(run, which=('step_types_mut', 'deep_types_mut', 'outer_types_mut'), native_bad=native.sweep_c05()[1])
@@ -34,3 +36,45 @@ def check(run):
             run.violated('resolve_types closure calls resolve_type on its node', 'T', 'resolve-closure', {'detail': detail}, True)
     except mir.Unsupported as e:
         run.inconclusive('resolve_types closure', 'T', str(e))
+
+
+_S = None
+
+
+def _rc_task(cfg):
+    import resolvecheck as rc
+    try:
+        np, nq, viol = rc.run(_S, *cfg)
+        return cfg, np, nq, viol, None
+    except mir.Unsupported as e:
+        return cfg, 0, 0, [], str(e)
+
+
+def resolver_obligations(run):
+    """resolve_type against the scoping rules, on symbolic names / import sets / forward declarations / key map (engine T + z3 strings)."""
+    import multiprocessing as mp
+    global _S
+    try:
+        _S = tc.Setup()
+    except (mir.Unsupported, RuntimeError) as e:
+        run.inconclusive('resolve_type (symbolic)', 'T', str(e)); return
+    cfgs = [(0, 0, 0), (1, 0, 0), (1, 0, 1), (1, 1, 0), (2, 0, 1), (2, 1, 1)] if run.tier == 'quick' else [(0, 0, 0), (1, 0, 0), (1, 0, 1), (1, 1, 0), (2, 0, 1), (2, 1, 1), (2, 1, 2), (3, 1, 1)]
+    with mp.Pool(len(cfgs)) as pool:
+        res = pool.map(_rc_task, cfgs)
+    nat = None
+    for cfg, np, nq, viol, err in res:
+        title = 'resolve_type follows the scoping rules for every written name, %d import(s), %d forward declaration(s), %d registered key(s), any hash order' % cfg
+        run.states += np
+        run.transitions += nq
+        if err:
+            run.inconclusive(title, 'T', err)
+        elif viol:
+            if nat is None:
+                nat = native.sweep_c05()[1]
+            roles = {}
+            for v in viol:
+                roles.setdefault(v['what'][:70], []).append(v)
+            for role, vs in roles.items():
+                run.violated(title, 'T', 'resolve:' + role, {'solver': vs[:2], 'native': nat[:2]}, bool(nat), queries=nq, bound='unbounded strings', detail=vs[0]['what'][:200])
+        else:
+            run.holds(title, 'T', queries=nq, bound='unbounded strings; %d paths' % np)
